@@ -30,8 +30,10 @@ Property theorems only (helpers: `Proofs/NNLinear.lean`, `NNGnat.lean`, `NNGnatQ
   to spaces that claim to be metric, `NearestNeighborsSqrtApprox` (no metric law needed) otherwise.
 
 Hypotheses of the operation theorems, all satisfied by the driver's instances (`sampleCtx_ok`):
-`CtxOK` (`minDegree_, maxDegree_, degree_ >= 1` — with `minDegree_ = 0` the real `split` calls `kcenters`
-with `k = 0`, see notes/C10.md —, the first centre is a valid index, `dist x x = 0 <= dist x y`, `0 < eps`),
+`CtxOK` (`minDegree_, maxDegree_, degree_ >= 1` — established by the constructor for EVERY argument vector since /repo
+77efe5ce5, `gnat_ctor_establishes_inv`; the constructor before that repair is `Gnat.initOld`, for which `minDegree_ = 0`
+makes `split` call `kcenters` with `k = 0`: `min_degree_zero_fails`, F400 —, the first centre is a valid index,
+`dist x x = 0 <= dist x y`, `0 < eps`),
 and for `remove` a genuine metric (`MetricOK`: symmetry, triangle inequality, `dist a b = 0 ↔ a = b`).
 -/
 namespace OmplModel.NN
@@ -507,17 +509,19 @@ theorem kcenters_zero_columns_fails [LinearOrder D] (dist : α → α → D) (ep
     kcentersM dist eps data 0 first (Mat.new data.length 0) = none :=
   kcentersM_zero_fails dist eps data first hf
 
-/-- **A constructor-accepted parameterisation reaches that call (F400).**  `NearestNeighborsGNAT(degree = 2,
+/-- **A parameterisation the OLD constructor accepted reaches that call (F400; repaired in /repo 77efe5ce5 — this
+theorem is about `Gnat.initOld`, the constructor before the repair, which the check selects when the tree under test
+lacks it).**  `NearestNeighborsGNAT(degree = 2,
 minDegree = 0, maxDegree = 2, maxNumPtsPerLeaf = 1, removedCacheSize = 0)`: after `add 1, 2, 3, 4` (first centre
 `data_[0]`) the tree has a leaf child with `degree_ = min(max(2·|data|/3, 0), 2) = 0` that holds one element, so the
 next element routed to it makes `needToSplit` true (`2 > 1 && 2 > 0`) and `split` calls `kcenters` with `k = 0`
 (`kcenters_zero_columns_fails`).  Replay on the real code: `corpus/C10/f400-min-degree-zero-gnat.txt`. -/
 theorem min_degree_zero_fails :
-    (match (gnatRun (U := Nat) ⟨(Gnat.init (α := Int × Int) (D := Int) 2 0 2 1 0 false).params, l1, 1, fun u n => u % n⟩
-        (childOrder true) [.add (1, 0), .add (2, 0), .add (3, 0), .add (4, 0)] (Gnat.init 2 0 2 1 0 false) [0]).1.tree with
+    (match (gnatRun (U := Nat) ⟨(Gnat.initOld (α := Int × Int) (D := Int) 2 0 2 1 0 false).params, l1, 1, fun u n => u % n⟩
+        (childOrder true) [.add (1, 0), .add (2, 0), .add (3, 0), .add (4, 0)] (Gnat.initOld 2 0 2 1 0 false) [0]).1.tree with
       | none => false
       | some t => t.children.any (fun c => c.children.isEmpty && c.degree == 0 && c.data.length == 1 &&
-          needToSplit (Gnat.init (α := Int × Int) (D := Int) 2 0 2 1 0 false).params c.degree (c.data.length + 1) &&
+          needToSplit (Gnat.initOld (α := Int × Int) (D := Int) 2 0 2 1 0 false).params c.degree (c.data.length + 1) &&
           (kcentersM l1 1 (c.data ++ [⟨9, (5, 0)⟩]) c.degree 0 (Mat.new (c.data.length + 1) c.degree)).isNone)) = true := by
   decide
 
@@ -526,27 +530,37 @@ end KCentersMatrix
 section Ctor
 variable [CommRing D] [LinearOrder D] [IsStrictOrderedRing D] [BEq α] [LawfulBEq α] {U : Type}
 
-/-- **The invariant is established by the constructor**, and `split` is defined for its parameters iff the user's
-`degree` and `minDegree` are at least 1: `Gnat.init` is the constructor as coded (`minDegree_ = min(degree,
-minDegree)`, `maxDegree_ = max(maxDegree, degree)`, `rebuildSize_ = rebalancing ? leaf·degree : max`). -/
+/-- **The invariant is established by the constructor, for EVERY argument vector** (the constructor as coded since
+77efe5ce5: `degree_ = max(degree, 1)`, `minDegree_ = max(min(degree, minDegree), 1)`, `maxDegree_ = max(maxDegree,
+degree, 1)`, `rebuildSize_ = rebalancing ? leaf·max(degree,1) : max`): the fresh state satisfies `Gnat.Inv`, has no
+tree, and its parameters satisfy `ParamsOK` with `degree_ >= 1` — so `split` is defined and never asks `kcenters` for 0
+centres.  `ParamsOK` is no longer a hypothesis anywhere below. -/
 theorem gnat_ctor_establishes_inv (ctx : Ctx α D U) (degree minDegree maxDegree leaf cache : Nat) (rebal : Bool)
     (hP : ctx.P = (Gnat.init (α := α) (D := D) degree minDegree maxDegree leaf cache rebal).params) :
     (Gnat.init (α := α) (D := D) degree minDegree maxDegree leaf cache rebal).Inv ctx ∧
     (Gnat.init (α := α) (D := D) degree minDegree maxDegree leaf cache rebal).tree = none ∧
-    ((ParamsOK ctx.P ∧ 1 ≤ ctx.P.degree) ↔ (1 ≤ degree ∧ 1 ≤ minDegree)) := by
+    ParamsOK ctx.P ∧ 1 ≤ ctx.P.degree := by
   obtain ⟨h1, h2⟩ := Gnat.init_inv ctx degree minDegree maxDegree leaf cache rebal hP
   refine ⟨h1, h2, ?_⟩
   rw [hP]
   exact Gnat.init_paramsOK degree minDegree maxDegree leaf cache rebal
 
-/-- **From the constructor, for every history** (no invariant assumed): a structure constructed with ANY arguments
-`degree >= 1`, `minDegree >= 1` (any `maxDegree`, leaf size — 0 included —, removal-cache size — 0 included —,
-rebalancing on or off), a genuine metric, `0 < eps`, a first-centre choice that is a valid index: after every finite
-sequence of add / add(vector) / remove / clear with every draw sequence, `size()` and `list()` are those of the
-abstract multiset and `nearestK` / `nearestR` are exact over it, for every child order. -/
+/-- the constructor BEFORE the repair (`Gnat.initOld`, no clamping): its parameters satisfy `ParamsOK ∧ degree_ >= 1`
+**iff** the user's `degree` and `minDegree` are at least 1 — the gap F400 fell through (`min_degree_zero_fails`). -/
+theorem gnat_old_ctor_params_ok_iff (degree minDegree maxDegree leaf cache : Nat) (rebal : Bool) :
+    (ParamsOK (Gnat.initOld (α := α) (D := D) degree minDegree maxDegree leaf cache rebal).params ∧
+      1 ≤ (Gnat.initOld (α := α) (D := D) degree minDegree maxDegree leaf cache rebal).params.degree) ↔
+    (1 ≤ degree ∧ 1 ≤ minDegree) :=
+  Gnat.initOld_paramsOK degree minDegree maxDegree leaf cache rebal
+
+/-- **From the constructor, for every argument vector and every history** (no invariant, no parameter condition
+assumed): a structure constructed with ANY `degree`, `minDegree`, `maxDegree` (0 included), leaf size, removal-cache
+size, rebalancing on or off; a genuine metric, `0 < eps`, a first-centre choice that is a valid index: after every finite
+sequence of add / add(vector) / remove / clear with every draw sequence, `size()` and `list()` are those of the abstract
+multiset and `nearestK` / `nearestR` are exact over it, for every child order. -/
 theorem gnat_history_from_ctor (ctx : Ctx α D U) (hm : MetricOK ctx.dist) (heps : 0 < ctx.eps)
     (hpick : ∀ u n, 0 < n → ctx.pick u n < n)
-    (degree minDegree maxDegree leaf cache : Nat) (rebal : Bool) (hdeg : 1 ≤ degree) (hmin : 1 ≤ minDegree)
+    (degree minDegree maxDegree leaf cache : Nat) (rebal : Bool)
     (hP : ctx.P = (Gnat.init (α := α) (D := D) degree minDegree maxDegree leaf cache rebal).params)
     {ord ordq : Nat → Nat → List Nat} (hord : ∀ sz off, (ord sz off).Perm (List.range sz))
     (hordq : ∀ sz off, (ordq sz off).Perm (List.range sz)) (ops : List (Op α)) (us : List U)
@@ -556,20 +570,21 @@ theorem gnat_history_from_ctor (ctx : Ctx α D U) (hm : MetricOK ctx.dist) (heps
     IsKNearest (fun v => ctx.dist q v) k (specRun ops) ((g.nearestK ctx.dist eps ordq q k).1.map (fun x => x.2.val)) ∧
     IsRNearest (fun v => ctx.dist q v) rad (specRun ops) ((g.nearestR ctx.dist ordq q rad).1.map (fun x => x.2.val)) := by
   intro g
-  obtain ⟨hinv, hnone, hiff⟩ := gnat_ctor_establishes_inv ctx degree minDegree maxDegree leaf cache rebal hP
-  obtain ⟨hpar, hd1⟩ := hiff.mpr ⟨hdeg, hmin⟩
+  obtain ⟨hinv, hnone, hpar, hd1⟩ := gnat_ctor_establishes_inv ctx degree minDegree maxDegree leaf cache rebal hP
   have hctx : CtxOK ctx := ⟨hpar, hd1, hpick, ⟨hm.self, fun a b => dist_nonneg_of hm.metric hm.self a b, heps⟩⟩
   obtain ⟨_, _, hs, hl⟩ := gnat_size_list_abs ctx hctx hm hord _ hinv hnone ops us
   obtain ⟨hk, hr, _, _⟩ := gnat_history_queries_exact ctx hctx hm hord hordq _ hinv hnone ops us q k eps rad
   exact ⟨hs, hl, hk, hr⟩
 
-/-- non-vacuity: degree 1 (chain trees), leaf size 0, cache 0, rebalancing on — all admitted. -/
+/-- non-vacuity: ALL arguments 0 (degree, minDegree, maxDegree, leaf size, cache) with rebalancing — admitted. -/
 example (ops : List (Op (Int × Int))) (us : List Nat) :
-    (gnatRun ⟨(Gnat.init (α := Int × Int) (D := Int) 1 1 1 0 0 true).params, l1, 1, fun u n => u % n⟩ (childOrder true) ops
-      (Gnat.init 1 1 1 0 0 true) us).1.size = (specRun ops).length :=
-  (gnat_history_from_ctor ⟨(Gnat.init (α := Int × Int) (D := Int) 1 1 1 0 0 true).params, l1, 1, fun u n => u % n⟩
-    sampleCtx_ok.2 (by decide) (fun u n hn => Nat.mod_lt u hn) 1 1 1 0 0 true (by decide) (by decide) rfl
+    (gnatRun ⟨(Gnat.init (α := Int × Int) (D := Int) 0 0 0 0 0 true).params, l1, 1, fun u n => u % n⟩ (childOrder true) ops
+      (Gnat.init 0 0 0 0 0 true) us).1.size = (specRun ops).length :=
+  (gnat_history_from_ctor ⟨(Gnat.init (α := Int × Int) (D := Int) 0 0 0 0 0 true).params, l1, 1, fun u n => u % n⟩
+    sampleCtx_ok.2 (by decide) (fun u n hn => Nat.mod_lt u hn) 0 0 0 0 0 true rfl
     (childOrder_perm true) (childOrder_perm true) ops us (0, 0) 0 1 0).1
+example : (Gnat.init (α := Int × Int) (D := Int) 0 0 0 3 0 true).params.degree = 1 ∧
+    (Gnat.init (α := Int × Int) (D := Int) 0 0 0 3 0 true).rebuildSize = some 3 := by decide
 
 /-- **Histories that change the distance function.**  Any number of segments, each `setDistanceFunction(f_i)` (GNAT:
 rebuild under the new function if there is a tree) followed by any add / add(vector) / remove / clear sequence; every
